@@ -137,7 +137,8 @@ for _m in ["least_confident", "margin_sampling", "entropy"]:
         model_arg="clf")
 add("US_eap", P.UncertaintySampling,
     lambda s, ml=NAN: P.UncertaintySampling(method="expected_average_precision", missing_label=ml, random_state=s),
-    lambda c: dict(clf=_ctx_clf(c)), arbitrary_index_ok=True, independent=True, perm=True, model_arg="clf",
+    # expected average precision ranks all candidates jointly: not a sample-wise scorer (no restriction claim)
+    lambda c: dict(clf=_ctx_clf(c)), arbitrary_index_ok=True, independent=False, perm=True, model_arg="clf",
     nmax=20)
 add("US_nb", P.UncertaintySampling,
     lambda s, ml=NAN: P.UncertaintySampling(method="entropy", missing_label=ml, random_state=s),
@@ -235,8 +236,10 @@ add("EpistemicUS", P.EpistemicUncertaintySampling,
     independent=True, perm=True, binary=True, model_arg="clf", nmax=25)
 add("EpistemicUS_pre", P.EpistemicUncertaintySampling,
     lambda s, ml=NAN: P.EpistemicUncertaintySampling(precompute=True, missing_label=ml, random_state=s),
+    # precompute=True interpolates on a grid whose extent depends on the candidate set: approximation mode,
+    # no restriction claim
     lambda c: dict(clf=clf_pwc(c["classes"][:2], c.get("ml", NAN))), arbitrary_index_ok=True,
-    independent=True, binary=True, model_arg="clf", nmax=25)
+    independent=False, binary=True, model_arg="clf", nmax=25)
 add("GreedySamplingX", P.GreedySamplingX, lambda s, ml=NAN: P.GreedySamplingX(missing_label=ml, random_state=s),
     kind="both", arbitrary_index_ok=True, independent=True, perm=True)
 add("GreedySamplingTarget", P.GreedySamplingTarget,
